@@ -123,7 +123,7 @@ class _CachingVersioned(CachingLoaderMixin, _Versioned):
 
 
 def _src(name: str, ns, version: int) -> str:
-    return f"V{version}:{name}:{ns or ''}:" + "{{ u }}"
+    return f"V{version}:{name}:{ns or ''}:" + "{{ u }}{{ eg }}"
 
 
 def _initial() -> dict:
@@ -203,7 +203,7 @@ def _run_history(ops: list[int], cap: int, auto_reload: bool, fresh: bool, backe
             ld = _fs_loader(backend, cap, auto_reload)
             for k in list(sources):
                 _fs_write(k, sources[k], 0)
-        return ld, Environment(loader=ld)
+        return ld, Environment(loader=ld, globals={"eg": "E"})  # environment globals must reach cached templates too
 
     loader, env = untraced(build)
     lru: list = []  # [(cache_key, source at load)] least recently used first
@@ -246,7 +246,7 @@ def _run_history(ops: list[int], cap: int, auto_reload: bool, fresh: bool, backe
                 lru.remove(hit[0])
                 lru.append(hit[0])
         g = {"u": 7} if with_g else None
-        want = None if want_src is None else want_src.replace("{{ u }}", "7" if with_g else "")
+        want = None if want_src is None else want_src.replace("{{ u }}", "7" if with_g else "").replace("{{ eg }}", "E")
         # ---- real loader ----
         try:
             if is_async:
@@ -342,7 +342,7 @@ def twin_hist(o1: int) -> bool:
     first = env.get_template("a").render()
     if concrete_int(o1, 0, N_OPS - 1) == 16:
         sources["a"] = _src("a", None, 1)
-    return env.get_template("a").render() == sources["a"].replace("{{ u }}", "")
+    return env.get_template("a").render() == sources["a"].replace("{{ u }}", "").replace("{{ eg }}", "")
 
 
 # --------------------------------------------------------------------------------------------
@@ -351,16 +351,16 @@ def twin_hist(o1: int) -> bool:
 @cond(
     pre=["0 <= g1 <= 2", "0 <= g2 <= 2"],
     timeout=120,
-    covers="CachingDictLoader (stock class): two consecutive loads of one name with independent globals (absent or a symbolic value) each render with their own globals, sync and async, and one cache entry results",
+    covers="CachingDictLoader (stock class): two consecutive loads of one name with independent globals (absent or a symbolic value) each render with their own globals and with the environment globals, sync and async, and one cache entry results",
     bounds="globals absent / {'u': 1} / {'u': 2} per call; 4 sync/async combinations",
     grid=lambda: [(a, b, x, y) for a in range(3) for b in range(3) for x in (False, True) for y in (False, True)],
 )
 def s_stock_globals(g1: int, g2: int, a1: bool, a2: bool) -> bool:
-    loader = CachingDictLoader({"t": "[{{ u }}]"}, namespace_key="ns")
-    env = Environment(loader=loader)
+    loader = CachingDictLoader({"t": "[{{ u }}]{{ eg }}"}, namespace_key="ns")
+    env = Environment(loader=loader, globals={"eg": "E"})
     for g, is_async in ((concrete_int(g1, 0, 2), a1), (concrete_int(g2, 0, 2), a2)):
         gl = {"u": g} if g else None
         t = drive(env.get_template_async("t", globals=gl, ns="n")) if is_async else env.get_template("t", globals=gl, ns="n")
-        if t.render() != (f"[{g}]" if g else "[]"):
+        if t.render() != (f"[{g}]E" if g else "[]E"):
             return False
     return list(loader.cache.keys()) == ["n/t"]
